@@ -18,8 +18,15 @@ def snake(name):
     return out
 
 
+_REL = {"fn": None}
+
+
 def relativize(absolute, package):
-    """Mirror of Import.relativize (the generated files use relative imports for eolib.* targets)."""
+    """The import line's module path as the generator renders it: Import.relativize is interpreted from the
+    repository's source (engine C evaluator on concrete paths); the mirror below is only the fallback used
+    before an index is available."""
+    if _REL["fn"] is not None:
+        return _REL["fn"](absolute, package)
     if not absolute.startswith("eolib."):
         return absolute
     a, b = absolute.split("."), package.split(".")
@@ -119,6 +126,7 @@ def run(rep, index):
                        "maps are compared with the documented layout.")
     src_root = os.path.join(index.repo, "src")
     emitter_rules(rep, index)
+    _REL["fn"] = interpreted_relativize(rep, index)
     static = [m for m in index.all_module_names("eolib") if not m.startswith(GEN)]
     if len(static) < 20:
         raise AnalysisError("only %d static eolib modules found" % len(static))
@@ -192,6 +200,33 @@ def run(rep, index):
     rep.assumptions += ["valid spec trees have a protocol.xml in each of the seven documented directories and PacketFamily/PacketAction in net",
                         "type names are identifiers that collide with no module, package or other attribute name (the property's non-degenerate specs)",
                         "generated modules consist of their import lines and one class (checked against the emitter by the C18 analysis)"]
+
+
+def interpreted_relativize(rep, index):
+    """Import.relativize from /repo, interpreted (never imported); results are memoised."""
+    from ..genabs.absint import Interp
+    from ..genabs.values import World, Chooser, PyRaise
+    it = Interp(index)
+    cb = it.load_module("protocol_code_generator.generate.code_block")
+    memo = {}
+
+    def rel(absolute, package):
+        k = (absolute, package)
+        if k not in memo:
+            World.chooser = Chooser([])
+            World.trace = {}
+            imp = it.call(cb.env["Import"], ["X", absolute], {})
+            line = it.call(it.getattr(imp, "relativize"), [package], {})
+            if World.chooser.log:
+                raise AnalysisError("Import.relativize forks on concrete paths")
+            if not (isinstance(line, str) and line.startswith("from ") and line.endswith(" import X")):
+                raise AnalysisError("Import.relativize returned %r" % (line,))
+            memo[k] = line[len("from "):-len(" import X")]
+        return memo[k]
+    # sanity: the two documented shapes of import
+    rep.ob("C20.G0 relativize-interpreted", "Import.relativize", rel("enum", "eolib.protocol._generated.net") == "enum",
+           "non-eolib module paths are left absolute: %r" % rel("enum", "eolib.protocol._generated.net"))
+    return rel
 
 
 def emitter_rules(rep, index):
